@@ -49,6 +49,10 @@ def do_replay(check, path):
     core.quiet_library_logging()
     body = json.load(open(path))
     trace = body['trace']
+    hs = body.get('hashseed')
+    if hs and os.environ.get('PYTHONHASHSEED') != str(hs):
+        env = dict(os.environ, PYTHONHASHSEED=str(hs))
+        os.execve(sys.executable, [sys.executable] + sys.argv, env)
     res = mod.execute(check, trace, True)
     v = res['violation']
     print('REPLAY check=%s file=%s digest=%s' % (check, path, res['digest']))
@@ -79,9 +83,10 @@ def determinism_sample(mod, check, tier, plan, n=32):
         i = j // len(pops)
         d = []
         for _ in range(2):
-            rng = core.rng_for(check, seed, population, i)
-            trace = mod.generate(check, population, rng, tier)
-            d.append(mod.execute(check, trace)['digest'])
+            trace = core.isolated_generate(SPEC_OF[check], check, seed,
+                                           population, tier, i, i + 1)[0]
+            d.append(core.isolated_execute(SPEC_OF[check], check,
+                                           trace)['digest'])
         cnt += 1
         if d[0] != d[1]:
             bad.append((population, i))
@@ -160,7 +165,7 @@ def main(argv):
             continue
         # shrink, write replay, verify in a fresh interpreter
         vbuf = None
-        res0 = mod.execute(check, trace)
+        res0 = core.isolated_execute(SPEC_OF[check], check, trace)
         v0 = res0['violation']
         if v0 is None or v0.cls != cls:
             harness_problem = ('violation of run %s/%d did not reproduce '
@@ -168,7 +173,7 @@ def main(argv):
             continue
         vbuf = getattr(v0, 'buf', None)
         small, execs, ok = mod.shrink(check, trace, cls, vbuf)
-        res1 = mod.execute(check, small)
+        res1 = core.isolated_execute(SPEC_OF[check], check, small)
         v1 = res1['violation']
         if v1 is None or v1.cls != cls:
             small, res1, v1 = trace, res0, v0
@@ -195,8 +200,8 @@ def main(argv):
                          'detail': v1.detail})
         exit_code = 1
     for population, i in backstop:
-        rng = core.rng_for(check, seed, population, i)
-        trace = mod.generate(check, population, rng, tier)
+        trace = core.isolated_generate(SPEC_OF[check], check, seed,
+                                       population, tier, i, i + 1)[0]
         vj = {'property': 'C08', 'oracle': 'backstop',
               'class': ['backstop'],
               'detail': 'worker running %s/%d died or exceeded the wall '
@@ -210,6 +215,64 @@ def main(argv):
             lines.append('VIOLATION property=C08 replay=%s' % path)
             lines.append('  %s' % vj['detail'])
             exit_code = 1
+    hashseed_batches = []
+    if check == 'C12' and not os.environ.get('VERIF_SUBBATCH'):
+        # Same runs again in fresh interpreters under other hash seeds; the
+        # pristine reference stays at PYTHONHASHSEED=0, so any dependence of
+        # the bytes on the hash seed fails the fresh-interpreter oracle there.
+        import subprocess
+        import tempfile
+        import shutil
+        main_digests = dict(d.split('=') for d in
+                            agg.extra.get('digests', ()))
+        derived = str(core.run_seed(check, seed, 'hashseed', 0) % 4000000000)
+        for hs in ('1', derived):
+            tmp = tempfile.mkdtemp(prefix='verif-hs-')
+            try:
+                env = dict(os.environ, PYTHONHASHSEED=hs, VERIF_SUBBATCH=hs,
+                           VERIF_SCALE=str(scale * 0.25),
+                           VERIF_EVIDENCE_DIR=tmp)
+                p = subprocess.run(
+                    [sys.executable, os.path.join(core.VERIF, 'run'), check,
+                     tier], capture_output=True, text=True, env=env,
+                    cwd=core.VERIF, timeout=wall_cap)
+                out_lines = p.stdout.splitlines()
+                sub = {'hashseed': hs, 'rc': p.returncode}
+                try:
+                    ev = json.load(open(os.path.join(tmp, check + '.json')))
+                    sub['runs'] = ev['coverage']['evaluations']
+                    sub['oracle_evaluations'] = \
+                        ev['coverage']['oracle_evaluations']
+                    their = dict(d.split('=') for d in
+                                 ev['coverage']['digest_sample'])
+                    common = [k for k in their if k in main_digests]
+                    differ = [k for k in common
+                              if their[k] != main_digests[k]]
+                    sub['digests_compared_with_hashseed_0'] = len(common)
+                    sub['digests_differing'] = len(differ)
+                    if differ and p.returncode == 0:
+                        harness_problem = (
+                            'event-log digests differ between PYTHONHASHSEED'
+                            '=0 and =%s for runs %r although no oracle '
+                            'failed' % (hs, differ[:4]))
+                except Exception as e:
+                    sub['error'] = repr(e)
+                if p.returncode == 1:
+                    exit_code = 1
+                    for i, ln in enumerate(out_lines):
+                        if ln.startswith('VIOLATION'):
+                            lines.extend(out_lines[i:i + 3])
+                            lines.append('  (found under PYTHONHASHSEED=%s)'
+                                         % hs)
+                            reported.append({'hashseed': hs, 'line': ln,
+                                             'known': False})
+                elif p.returncode != 0:
+                    harness_problem = ('hash-seed sub-batch %s exited %d: %s'
+                                       % (hs, p.returncode,
+                                          (p.stdout + p.stderr)[-600:]))
+                hashseed_batches.append(sub)
+            finally:
+                shutil.rmtree(tmp, ignore_errors=True)
     wall = time.time() - t0
     runs_per_hour = int(agg.runs / max(info['wall_s'], 1e-6) * 3600)
     world = 'A' if SPEC_OF[check] == 'sim.check_a' else 'B'
@@ -242,6 +305,8 @@ def main(argv):
             'transient_not_recurring': info['transient_worker_failures'],
             'confirmed_timeouts': info['confirmed_timeouts'],
             'confirmed_crashes': info['confirmed_crashes']},
+        'digest_sample': sorted(agg.extra.pop('digests', ())),
+        'hashseed_batches': hashseed_batches,
         'determinism_sample': {'seeds_run_twice': det_n,
                                'mismatches': len(det_bad)},
         'components': REAL_STUB[world],
